@@ -19,6 +19,7 @@ use std::{io, path};
 use async_trait::async_trait;
 use bytes::Bytes;
 use tempfile::TempDir;
+use tokio::io::AsyncWriteExt;
 use tokio::sync::Semaphore;
 use tracing::{error, trace, warn};
 use url::Url;
@@ -100,7 +101,35 @@ impl super::Protocol for Protocol {
                 options.create(true).truncate(true);
             }
         }
-        if let Err(err) = tokio::fs::write(&full_path, content).await {
+        let mut file = match options.open(&full_path).await {
+            Ok(file) => file,
+            Err(err)
+                if err.kind() == io::ErrorKind::AlreadyExists
+                    && tokio::fs::metadata(&full_path)
+                        .await
+                        .is_ok_and(|m| m.is_file() && m.len() == 0) =>
+            {
+                // A zero-length file is what a write interrupted by a crash leaves
+                // behind (and is otherwise never valid): complete it.
+                options
+                    .create_new(false)
+                    .open(&full_path)
+                    .await
+                    .map_err(|err| Error::io_error(&full_path, err))?
+            }
+            Err(err) => {
+                // Nothing was created, so there is nothing to clean up: in particular
+                // don't remove a file that already existed.
+                error!("Failed to create {full_path:?}: {err:?}");
+                return Err(Error::io_error(&full_path, err));
+            }
+        };
+        let written = match file.write_all(content).await {
+            Ok(()) => file.flush().await,
+            Err(err) => Err(err),
+        };
+        drop(file);
+        if let Err(err) = written {
             error!("Failed to write {full_path:?}: {err:?}");
             if let Err(err2) = tokio::fs::remove_file(&full_path).await {
                 error!("Failed to remove {full_path:?}: {err2:?}");
